@@ -84,4 +84,23 @@ theorem neg_one_lt_erf (x : ℝ) : -1 < erf x := by
 theorem abs_erf_lt_one (x : ℝ) : |erf x| < 1 :=
   abs_lt.mpr ⟨neg_one_lt_erf x, erf_lt_one x⟩
 
+open Filter Topology in
+/-- `erf x → 1` as `x → +∞` (Gaussian integral). -/
+theorem erf_tendsto_atTop : Tendsto erf atTop (𝓝 1) := by
+  have h := intervalIntegral_tendsto_integral_Ioi (μ := volume) (f := fun t : ℝ => exp (-t^2)) 0
+    gauss_integrable.integrableOn tendsto_id
+  rw [gauss_Ioi] at h
+  have h2 := h.const_mul (2 / √π)
+  have hpi : 0 < √π := by positivity
+  have e : 2 / √π * (√π / 2) = 1 := by field_simp
+  rw [e] at h2
+  exact h2
+
+open Filter Topology in
+/-- `erf x → -1` as `x → -∞`. -/
+theorem erf_tendsto_atBot : Tendsto erf atBot (𝓝 (-1)) := by
+  have h := (erf_tendsto_atTop.comp tendsto_neg_atBot_atTop).neg
+  refine h.congr (fun x => ?_)
+  simp [erf_neg]
+
 end MTfitVerif
